@@ -42,6 +42,24 @@ fn bases() -> &'static Vec<(String, String)> {
     })
 }
 
+/// the number of equations `X = .. Y * Y ..`-like definitions in a row: products of a variable with itself
+/// (the classic portfolio substitutes defined variables, which doubles the formula at every link)
+pub fn squaring_chain(text: &str) -> usize {
+    let compact: String = text.chars().filter(|c| !c.is_whitespace()).collect();
+    let mut count = 0;
+    for part in compact.split("and") {
+        if let Some((_, rhs)) = part.split_once('=') {
+            if let Some((a, b)) = rhs.split_once('*') {
+                let clean = |s: &str| s.trim_matches(|c: char| c == '(' || c == ')' || c == '.').to_string();
+                if !a.is_empty() && clean(a) == clean(b) {
+                    count += 1;
+                }
+            }
+        }
+    }
+    count
+}
+
 pub fn nesting(text: &str) -> usize {
     let mut depth: usize = 0;
     let mut max = 0;
@@ -286,8 +304,10 @@ impl Check for C16 {
         let depth = nesting(&text);
         // very deep nesting is only given to the real binary: in-process it would either exhaust the
         // stack (not catchable) or spend minutes in the high-degree polynomial simplifier
-        let in_process = if depth >= 400 { Ok(0) } else { pipeline(&text) };
-        let via_cli = case.via_cli || depth >= 400;
+        // (the same holds for a chain of squaring definitions, a recorded finding: exponential output)
+        let chain = squaring_chain(&text);
+        let in_process = if depth >= 400 || chain >= 12 { Ok(0) } else { pipeline(&text) };
+        let via_cli = case.via_cli || depth >= 400 || chain >= 12;
         match in_process {
             Err((sig, msg)) => Outcome::fail(sig, format!("C16: {msg}\n  input ({ext}): {:?}", truncate(&text))),
             Ok(accepted) => {
@@ -298,7 +318,8 @@ impl Check for C16 {
                             if r.timed_out {
                                 r = cli::run_env(&bin, &cmd, Some(&text), &[], Duration::from_secs(60));
                                 if r.timed_out {
-                                    return Outcome::fail("hang", format!("C16: `anthem {}` did not terminate within 60 s (twice)\n  input: {:?}", cmd.join(" "), truncate(&text)));
+                                    let sig = if chain >= 12 && cmd[0] == "simplify" { "hang:squaring-chain>=12" } else { "hang" };
+                                    return Outcome::fail(sig, format!("C16: `anthem {}` did not terminate within 60 s (twice)\n  input: {:?}", cmd.join(" "), truncate(&text)));
                                 }
                             }
                             let ok = match r.code {
